@@ -154,6 +154,13 @@ func (s *Sim) yieldPoint(site int) {
 	if !ok {
 		conn = -1
 	}
+	actor := s.ActorName(conn)
+	if conn < 0 && (actor == "anon" || strings.HasPrefix(actor, "srv:") || strings.HasPrefix(actor, "bg:")) {
+		// a goroutine the simulator cannot tell from its siblings yet (a serve goroutine before its
+		// first read): two of them parked in the same step would have no stable order
+		s.Count("fine.yield_skipped_unidentified_goroutine")
+		return
+	}
 	if why := unsafeToPark(); why != "" {
 		s.Count("fine.yield_skipped_lock_possibly_held")
 		if DebugYieldSkips != nil {
@@ -168,11 +175,11 @@ func (s *Sim) yieldPoint(site int) {
 		h ^= h >> 29
 		if h%s.StallMod == 0 {
 			s.Count("fault.stalled_goroutine")
-			s.parkStalled("pt", s.ActorName(conn), conn, " s"+strconv.Itoa(site)+" stalled", s.Steps+8+int((h>>16)%150))
+			s.parkStalled("pt", actor, conn, " s"+strconv.Itoa(site)+" stalled", s.Steps+8+int((h>>16)%150))
 			return
 		}
 	}
-	s.Park("pt", s.ActorName(conn), conn, " s"+strconv.Itoa(site), nil)
+	s.Park("pt", actor, conn, " s"+strconv.Itoa(site), nil)
 }
 
 // LockUsers is set by the fine-grained build: functions of the tree under test that take a
@@ -434,6 +441,8 @@ func (s *Sim) ActorName(conn int) string {
 		return "stop"
 	case bytes.Contains(st, []byte("sendKeepAlive")):
 		return "ka"
+	case bytes.Contains(st, []byte("net/http.(*Server).Serve(")):
+		return "accept"
 	}
 	return "anon"
 }
@@ -579,7 +588,7 @@ func (s *Sim) enabled() []Action {
 		// everything else waits for a stalled goroutine: the one that was to wake first goes on
 		first := stalled[0]
 		for _, p := range stalled[1:] {
-			if p.StallUntil < first.StallUntil || (p.StallUntil == first.StallUntil && p.seq < first.seq) {
+			if p.StallUntil < first.StallUntil || (p.StallUntil == first.StallUntil && p.key() < first.key()) {
 				first = p
 			}
 		}
